@@ -22,7 +22,7 @@ RULE = ("Latin-1 streams assembled from protocol fragments (known/unknown opener
         "(possibly ending inside a message) while 1..2 others carry clean streams, pieces interleaved: the clean connections deliver "
         "exactly their own messages, promptly. Differential: junk streams through one real handler of each kind (TCP server, TCP client "
         "control / BLOB mode, TTY server fed line by line) must be handled, piece by piece, exactly as a bare Buffer with that kind's "
-        "threshold handles them (deliveries and retained length). non-trivial = stream contains junk and the run cut inside a piece; "
+        "threshold handles them (deliveries and retained length); a quarter of the transport runs take their client connection out of one shared indi.transport.client.tcp.TCP object that made a BLOB connection before (asyncio.open_connection replaced by in-memory streams). non-trivial = stream contains junk and the run cut inside a piece; "
         "distinct = hash(stream, threshold, cuts)")
 ASSUMPTIONS = ["promptness is only demanded while the framer is provably synchronised (no '<'+registered-tag text retained before the message)",
                "with the threshold disabled no recovery after imitating junk is demanded",
